@@ -345,6 +345,7 @@ func (s *Sim) ReleaseActions(faultsFor func(c *Call) []string) []Action {
 func (s *Sim) Now() time.Duration { return time.Since(s.Start) }
 
 var traceLog = os.Getenv("VERIF_TRACE") != ""
+var traceActs = os.Getenv("VERIF_ACTS") != "" // debugging aid: list the enabled actions of every step in the event log
 
 func (s *Sim) logf(format string, a ...any) {
 	if traceLog {
@@ -400,6 +401,13 @@ func (s *Sim) StepOnce(acts []Action) bool {
 	if len(acts) >= 2 {
 		s.Branching++
 		s.sched = append(s.sched, a.Key)
+	}
+	if traceActs {
+		ks := make([]string, len(acts))
+		for i := range acts {
+			ks[i] = acts[i].Key
+		}
+		s.logf("     enabled: %s", strings.Join(ks, "  "))
 	}
 	s.logf("%04d t=%dms [%d] %s", s.Step, s.Now().Milliseconds(), len(acts), a.Key)
 	s.Step++
